@@ -232,6 +232,92 @@ theorem layoutAbs_lines (c : Ctx) (fuel : Nat) (box : OBox) (idx : Nat) (y : Rat
       exact substAbsList_lines _ hres kids
     | ph _ _ _ _ => simp [OFrag.isPh] at hph
 
+/-! ### continuations are real fragments (never bare placeholders), and keep their lines under `set_laid_out_box` -/
+
+@[simp] theorem isPh_translate (f : OFrag) (dy : Rat) : (f.translate dy).isPh = f.isPh := by
+  cases f <;> simp [OFrag.translate, OFrag.isPh]
+
+@[simp] theorem isPh_withSer (f : OFrag) (k : Nat) : (f.withSer k).isPh = f.isPh := by
+  cases f <;> rfl
+
+@[simp] theorem isPh_placeFloat (shapes : List Shape) (f : OFrag) : (placeFloat shapes f).isPh = f.isPh := by
+  unfold placeFloat
+  split
+  · split <;> simp
+  · simp
+
+theorem floatDone_isPh (shapes0 : List Shape) (r : LayoutResult) (f : OFrag) (ser : Nat) (w : World)
+    (h : floatDone shapes0 r = (some (f, ser), w)) : ∃ f0, r.frag = some f0 ∧ f.isPh = f0.isPh := by
+  unfold floatDone at h
+  split at h
+  · simp at h
+  · rename_i f0 hf0
+    simp only [Prod.mk.injEq, Option.some.injEq] at h
+    refine ⟨f0, hf0, ?_⟩
+    rw [← h.1.1]
+    simp
+
+theorem substAbs_isPh_of_notPh (res : List (Nat × OFrag)) (f : OFrag) (h : f.isPh = false) :
+    (substAbs res f).isPh = false := by
+  cases f with
+  | para _ _ _ _ _ _ _ => rfl
+  | block _ _ _ _ _ _ => rfl
+  | ph _ _ _ _ => simp [OFrag.isPh] at h
+
+theorem substAbs_lines_of_notPh (res : List (Nat × OFrag)) (hres : ∀ p ∈ res, p.2.inFlow = false) (f : OFrag)
+    (h : f.isPh = false) : fragLines (substAbs res f) = fragLines f := by
+  cases f with
+  | para _ _ _ _ _ _ _ => simp [substAbs]
+  | block _ _ _ _ _ kids =>
+    simp only [substAbs, fragLines]
+    exact substAbsList_lines res hres kids
+  | ph _ _ _ _ => simp [OFrag.isPh] at h
+
+theorem layoutAbs_frag_isPh (c : Ctx) (fuel : Nat) (box : OBox) (idx : Nat) (y : Rat) (skip : Option Resume)
+    (w : World) (f : OFrag) (h : (layoutAbs c fuel box idx y skip w).frag = some f) : f.isPh = false := by
+  obtain ⟨f0, res, _, hf, hph⟩ := layoutAbs_frag c fuel box idx y skip w f h
+  rcases hf with rfl | rfl
+  · exact hph
+  · exact substAbs_isPh_of_notPh res f0 hph
+
+theorem contStep_notPh (c : Ctx) (rootTop : Rat) (acc : World × List OFrag) (e : Broken)
+    (h : ∀ g ∈ acc.2, g.isPh = false) : ∀ g ∈ (contStep c rootTop acc e).2, g.isPh = false := by
+  unfold contStep
+  dsimp only
+  split
+  · split
+    · exact h
+    · rename_i f ser w' hfd
+      obtain ⟨f0, hf0, hfl⟩ := floatDone_isPh _ _ _ _ _ hfd
+      intro g hg
+      simp only [List.mem_append, List.mem_singleton] at hg
+      rcases hg with hg | rfl
+      · exact h g hg
+      · rw [hfl]; exact layoutBox_frag_isPh _ _ _ _ _ _ _ _ _ _ _ hf0
+  · split
+    · exact h
+    · rename_i f hf
+      intro g hg
+      simp only [List.mem_append, List.mem_singleton] at hg
+      rcases hg with hg | rfl
+      · exact h g hg
+      · exact layoutAbs_frag_isPh _ _ _ _ _ _ _ _ hf
+
+/-- The root of a block box is laid out as a block fragment (so `make_page` can put the continuations in front
+of its children). -/
+theorem layoutBox_block_frag (c : Ctx) (id : Nat) (st : OStyle) (kids : List OBox) (idx : Nat) (y bs : Rat)
+    (skip : Option Resume) (cb pie : Bool) (adjL : List Rat) (w : World) (f : OFrag)
+    (h : (layoutBox c (.block id st kids) idx y bs skip cb pie adjL w).frag = some f) :
+    ∃ g ks, f = .block 0 id idx st g ks := by
+  simp only [layoutBox, seenByCaller_frag] at h
+  unfold finishBlock at h
+  split at h
+  · simp [abortResult] at h
+  · obtain ⟨⟨g, rfl⟩, _⟩ := finishContainer_frag _ _ _ _ _ _ _ _ _ _ _ _ _ _ _ _ _ _ _ _ h
+    exact ⟨_, _, rfl⟩
+  · obtain ⟨⟨g, rfl⟩, _⟩ := finishContainer_frag _ _ _ _ _ _ _ _ _ _ _ _ _ _ _ _ _ _ _ _ h
+    exact ⟨_, _, rfl⟩
+
 theorem contStep_oof (c : Ctx) (rootTop : Rat) (acc : World × List OFrag) (e : Broken)
     (h : ∀ g ∈ acc.2, g.inFlow = false) : ∀ g ∈ (contStep c rootTop acc e).2, g.inFlow = false := by
   unfold contStep
